@@ -344,8 +344,24 @@ def check_ctx_history(a):
 
 
 def covered_ctx_history(a, msg):
+    """a failing history belongs to a listed finding when its shape is the one the finding describes
+    (known_finding_for: decidable on the input) AND the divergence observed on the real code at that call is
+    the one the model of the unchanged code computes for this very history (replay through the driver op
+    ctx.run): a different result on a history of the same shape is reported"""
     k = int(msg.split("#")[1].split(" ")[0])
-    return known_finding_for(a["universe"], a["steps"], k, _ctx_log(a["universe"]))
+    fid = known_finding_for(a["universe"], a["steps"], k, _ctx_log(a["universe"]))
+    if fid is None:
+        return None
+    from framework import Driver
+
+    try:
+        mo = Driver().run([{"op": "ctx.run", "args": {"universe": a["universe"], "steps": a["steps"]}}])[0]
+        got = L.run_steps(a["universe"], a["steps"])
+        m = mo["ok"][k]
+    except Exception:  # noqa: BLE001  (no driver / no answer: nothing can be attributed to a finding)
+        return None
+    same = all(m["shared"] == got[i]["shared"] and m["fresh"] == got[i]["fresh"] for i, m in enumerate(mo["ok"][:k + 1]))
+    return fid if same and m["shared"] != m["fresh"] else None
 
 
 def gen_ctx_history(rng, tier):
